@@ -469,6 +469,10 @@ pub fn run(ctx: &Ctx, rep: &mut Report) {
     for uni in ctx.my_universes(total) {
         let mut rng = ctx.rng_for(uni);
         rep.begin_universe(uni);
+        if uni == 0 {
+            // once per run: the history recorded under the pinned version, continued by the current code
+            crate::legacy::run(rep, "C01");
+        }
         let retentions: &[u64] = &[0, 1, 2, 5, u64::MAX];
         let max_signers = if rng.chance(1, 10) { 40 } else { 8 };
         let mut w = match build_world(&mut rng, retentions, max_signers, 6) {
